@@ -3,6 +3,7 @@
 package verifkit
 
 import (
+	"errors"
 	"io"
 	"sync"
 )
@@ -19,11 +20,15 @@ type ScriptReader struct {
 	Block       chan struct{}
 
 	mu        sync.Mutex
+	closed    bool
 	i         int
 	calls     int
 	Delivered int
 	Log       []ReadResult // what the consumer was given (n, err) per call
 }
+
+// ErrReadAfterClose is what a ScriptReader returns once it was closed.
+var ErrReadAfterClose = errors.New("read on closed body")
 
 type ReadResult struct {
 	N   int
@@ -46,6 +51,10 @@ func (c *ScriptReader) Read(p []byte) (int, error) {
 		return c.record(0, nil)
 	}
 	c.calls++
+	if c.closed {
+		defer c.mu.Unlock()
+		return c.record(0, ErrReadAfterClose)
+	}
 	if c.StallAt >= 0 && c.Block != nil && c.Delivered >= c.StallAt {
 		c.mu.Unlock()
 		<-c.Block
@@ -90,7 +99,13 @@ func (c *ScriptReader) Read(p []byte) (int, error) {
 	return c.record(n, nil)
 }
 
-func (c *ScriptReader) Close() error { return nil }
+// Close marks the reader closed: later Reads fail the way a closed HTTP body does.
+func (c *ScriptReader) Close() error {
+	c.mu.Lock()
+	c.closed = true
+	c.mu.Unlock()
+	return nil
+}
 
 // Plans returns the named partition plans used by the chunking monitors.
 func Plans(r *Rand, prefixLen int) map[string][]int {
